@@ -47,6 +47,7 @@ type c10Action struct {
 	Delay  int    // ms for cancel-after
 	Sleep  int    // ms the program sleeps
 	Code   int    // exit code of an ok program
+	Freeze int    // ms: SIGSTOP the init when the host reaches its wait point, SIGCONT after this long (both "result" and "kill" pending)
 }
 
 type c10Case struct{ Actions []c10Action }
@@ -96,7 +97,8 @@ func c10GenCase(rt *rapid.T) c10Case {
 		default:
 			a := c10Action{Kind: "execve", Target: rapid.SampledFrom(c10Targets).Draw(rt, "target"), Sync: rapid.SampledFrom([]string{"none", "ok", "ok", "fail"}).Draw(rt, "sync"),
 				After: rapid.IntRange(0, 3).Draw(rt, "after") == 0, Ctx: rapid.SampledFrom([]string{"background", "background", "background", "cancelled", "cancel-after"}).Draw(rt, "ctx"),
-				Delay: rapid.IntRange(0, 12).Draw(rt, "delay"), Sleep: rapid.SampledFrom([]int{0, 0, 0, 1, 3, 8, 30}).Draw(rt, "sleep"), Code: rapid.IntRange(0, 200).Draw(rt, "code")}
+				Delay: rapid.IntRange(0, 12).Draw(rt, "delay"), Sleep: rapid.SampledFrom([]int{0, 0, 0, 1, 3, 8, 30}).Draw(rt, "sleep"), Code: rapid.IntRange(0, 200).Draw(rt, "code"),
+				Freeze: rapid.SampledFrom([]int{0, 0, 0, 2, 10, 25}).Draw(rt, "freeze")}
 			c.Actions = append(c.Actions, a)
 		}
 	}
@@ -584,8 +586,24 @@ func c10Run(c c10Case, rec *vh.Recorder) error {
 			case "cancel-after":
 				ctx, cancel = context.WithTimeout(ctx, time.Duration(a.Delay)*time.Millisecond)
 			}
+			if a.Freeze > 0 {
+				frozen := false
+				container.VerifHook.Point = func(name string) {
+					if name == "execve:wait" && !frozen {
+						frozen = true
+						syscall.Kill(initPid, syscall.SIGSTOP)
+						go func() {
+							time.Sleep(time.Duration(a.Freeze) * time.Millisecond)
+							syscall.Kill(initPid, syscall.SIGCONT)
+						}()
+					}
+				}
+				classes = append(classes, "init-frozen-at-wait")
+			}
 			var res runner.Result
 			_, _, hung := call("execve", func() error { res = env.Execve(ctx, p); return nil })
+			container.VerifHook.Point = nil
+			syscall.Kill(initPid, syscall.SIGCONT)
 			if cancel != nil {
 				cancel()
 			}
@@ -695,7 +713,7 @@ func tail(l []string, n int) []string {
 
 func TestC10History(t *testing.T) {
 	rec := vh.NewRecorder(t, "C10", "exploration",
-		"case = history of 4..24 operations on one fresh environment: Ping, Open/Symlink batches over a 6-name pool in /w and /tmp (existing, missing, create, excl, MkdirAll, empty batch), Delete, Reset, Execve with target in {probe exiting with a per-call code, unknown name, relative name found in PATH, not executable, truncated ELF, script with missing interpreter, directory, missing absolute path, empty Args with/without ExecFile, bad rlimit} x SyncFunc {nil, ok, failing} x SyncAfterExec x context {background, already cancelled, cancelled after 0..12 ms} x program duration, and cutting the transport (SIGKILL of the init); "+
+		"case = history of 4..24 operations on one fresh environment: Ping, Open/Symlink batches over a 6-name pool in /w and /tmp (existing, missing, create, excl, MkdirAll, empty batch), Delete, Reset, Execve with target in {probe exiting with a per-call code, unknown name, relative name found in PATH, not executable, truncated ELF, script with missing interpreter, directory, missing absolute path, empty Args with/without ExecFile, bad rlimit} x SyncFunc {nil, ok, failing} x SyncAfterExec x context {background, already cancelled, cancelled after 0..12 ms} x program duration x freezing the container init (SIGSTOP/SIGCONT) for 0..25 ms at the host's wait point so that the result and the kill are both pending, and cutting the transport (SIGKILL of the init); "+
 			"oracle = a model of the container file system and of each call's outcome, per-call host message sequence against the protocol of container/doc.go, container log mirrors host log at every quiescent point, final Ping + Execve(exit 7); after a transport cut every call fails within 5 s; non-trivial = an Execve failing after the sync acknowledgement, or >=2 failing actions followed by a successful Execve")
 	vh.Check(t, rec, c10GenCase, func(c c10Case) error { return c10Run(c, rec) })
 }
